@@ -85,6 +85,10 @@ $(B)/obj/helper/%.o: $(REPO)/bus/%.c $(CFG)/config.h
 $(B)/simhelper: $(DBUS_OBJS) $(HELPER_OBJS) $(SIM_COMMON_OBJS) $(B)/obj/sim/harness/simhelper.o
 	$(CXX) $(SAN) $(OPT) -o $@ $^ $(WRAPFLAGS) -Wl,--wrap=execv $(LIBS)
 
+# stub-vs-Linux conformance of the simulated kernel (tools/conformance.sh); needs no dbus code except the spawn symbol the kernel wraps
+$(B)/simconf: $(DBUS_OBJS) $(SIM_COMMON_OBJS) $(B)/obj/sim/kernel/conformance.o
+	$(CXX) $(SAN) $(OPT) -o $@ $^ $(WRAPFLAGS) $(LIBS)
+
 $(B)/simlib: $(DBUS_OBJS) $(SIM_COMMON_OBJS) $(SIMLIB_OBJS)
 	$(CXX) $(SAN) $(OPT) -o $@ $^ $(WRAPFLAGS) $(THREAD_WRAPFLAGS) $(LIBS)
 
